@@ -5,15 +5,21 @@ kind and rare combinations both appear)."""
 from hypothesis import strategies as st
 
 
-def programs(op_strategies, min_len=1, max_len=40, always=()):
-    """op_strategies: {name: strategy producing a dict with 'op': name}."""
+def programs(op_strategies, min_len=1, max_len=40, always=(), focus=()):
+    """op_strategies: {name: strategy producing a dict with 'op': name}.
+    focus: groups of op-name prefixes; a quarter of the cases draw their ops
+    from one such group only (dense exercise of one interface)."""
     names = sorted(op_strategies)
+    groups = [[n for n in names if n.startswith(tuple(g))] for g in focus]
+    groups = [g for g in groups if g]
 
     @st.composite
     def prog(draw):
-        mode = draw(st.integers(0, 3))
+        mode = draw(st.integers(0, 3 if not groups else 4))
         if mode == 0:
             enabled = names
+        elif mode == 4:
+            enabled = draw(st.sampled_from(groups))
         else:
             enabled = draw(st.lists(st.sampled_from(names), min_size=2, max_size=max(2, len(names) // 2), unique=True))
             enabled = sorted(set(enabled) | set(always))
